@@ -183,8 +183,13 @@ def observe(chk, keys, tag, nproc=NPROC, full=False):
         rows += r
     rows.sort(key=lambda r: (r["proc"], r["thread"], r["seq"]))
     metas = [m for _, m in res]
-    if len(rows) != nproc * (2 + NTHREADS) * len(keys):
-        raise ToolError("C12: %d observations, expected %d" % (len(rows), nproc * (2 + NTHREADS) * len(keys)))
+    # per process: 2 sequential instances + NTHREADS threads for every key, plus the interleaved pair (thread 100: item-wise
+    # adapter kinds) and the instances constructed after an unrelated change_rng_seed (thread 101: ProbOrdMinHash2 keys)
+    extra = sum(1 for k in keys if k["entry"] == "item" and not k["kind"].startswith(("dens", "rev", "ord2"))) \
+        + sum(1 for k in keys if k["kind"].startswith("ord2"))
+    want = nproc * ((2 + NTHREADS) * len(keys) + extra)
+    if len(rows) != want:
+        raise ToolError("C12: %d observations, expected %d" % (len(rows), want))
     # the fingerprint must stand for the bits: same digest <=> same bits wherever the bits were logged
     d2b = {}
     for r in rows:
